@@ -89,6 +89,12 @@ type streamEndNotSupportedData struct {
 }
 
 func (s *stream) setOffset(vbID uint16, offset *models.Offset, dirty bool) {
+	if s.closing {
+		// the session this position belongs to is being torn down: its positions are dropped,
+		// the next session resumes from the stored checkpoints
+		return
+	}
+
 	if s.vbIDRange.In(vbID) {
 		if current, ok := s.offsets.Load(vbID); ok && current.SeqNo >= offset.SeqNo {
 			return
@@ -134,7 +140,6 @@ func (s *stream) waitAndForward(
 		Event:  payload,
 		Ack: func() {
 			s.setOffset(vbID, offset, true)
-			s.anyDirtyOffset = true
 		},
 		ListenerTracerComponent: s.tracerComponent.NewListenerTracerComponent(spanCtx),
 	}
@@ -483,6 +488,10 @@ func (s *stream) close(closeWithCancel bool) {
 	})
 	s.observers = nil
 
+	// nothing is left to save once the positions are dropped: a save issued while the stream
+	// is closed (Commit, the last tick of the stopped schedule) must not hand an empty state
+	// to the metadata store
+	s.anyDirtyOffset = false
 	s.offsets = wrapper.CreateConcurrentSwissMap[uint16, *models.Offset](1024)
 	s.dirtyOffsets = wrapper.CreateConcurrentSwissMap[uint16, bool](1024)
 	s.resetDirtySeqNos()
